@@ -367,7 +367,7 @@ func genHistory(g *sgen, c hcfg) []sop {
 		ops = append(ops, sop{kind: opInsert, docs: []types.Map{mk(i1+20, in)}})
 		probe()
 	}
-	if c.failing && r.Intn(4) == 0 {
+	if (c.failing || c.indexes) && r.Intn(4) == 0 {
 		// scenario: a document enters the scope of a partial unique index by an update that does not touch the
 		// indexed key (legal: nothing in scope holds the key yet); a second in-scope document with that key must
 		// then be rejected; the first leaves the scope again the same way and the key is free again
@@ -381,7 +381,7 @@ func genHistory(g *sgen, c hcfg) []sop {
 		j1, j2, j3 := 40+r.Intn(3), 44+r.Intn(3), 48+r.Intn(3)
 		setOther := func(x types.Value) types.Map { return types.NewMap(str("$set"), types.NewMap(str(other), x)) }
 		ops = append(ops,
-			sop{kind: opIndex, keys: []string{key}, uniq: true, filter: types.NewMap(str(other), in)},
+			sop{kind: opIndex, keys: []string{key}, uniq: c.failing || r.Intn(2) == 0, filter: types.NewMap(str(other), in)},
 			sop{kind: opInsert, docs: []types.Map{mk(j1, out)}},
 			sop{kind: opUpdate, filter: one(j1), upd: setOther(in)},
 			sop{kind: opInsert, docs: []types.Map{mk(j2, in)}},
